@@ -102,6 +102,8 @@ add("C24", "apimc", "model_checking", "exhaustive action-sequence enumeration on
     "Every action sequence up to depth 5 (quick) / 6 (thorough) with at least one registration over {apply one chunk (put, delete, failing CAS, a three-entry chunk larger than the broadcast capacity of 2, ...), let the dispatcher run to idle, drain / receive at a watcher, register exact '/a', register prefix '/a/', drop a watcher, heartbeat} x watcher buffer {1,2}; each sequence is followed by 'dispatch everything, drain everybody'. Oracle per watcher: every data event is a committed change of a watched key with its content (no event for a failed CAS), revisions strictly increase, nothing follows CANCELED, and the delivered revisions are a gap-free prefix of the watched changes since registration - complete unless the stream ended with CANCELED or the watcher went away.",
     "Dispatcher and producers interleave at the granularity of the listed actions (paused current-thread runtime); progress events only required not to follow CANCELED.", "DESIGN.md section 4 C24")
 
+e1t("C33", "Two parts under one command. Engine part: every sequence over {apply, create_snapshot through the real handler, graceful restart, crash restart} (length <= 5 quick / 6 thorough) on the real File and RocksDB state machines; after every restart the latest snapshot's metadata must still be known and its archive must still stream (what the leader's replication path needs for peers below its purge boundary). Cluster part (timed explorer, snapshots enabled, per-request cap 2): node 3 is down while the leader commits four writes; from the moment it returns - with the leader's snapshot/purge either still to come (timing explored: Snapshot events on any node, ticks, deliveries, a leader crash/stop/restart, one more write, snapshot pushes delivered or lost) or already done - every path is followed by the recovery closure (all messages and snapshot pushes delivered, timers expire, one probe write). Oracles: a node's purge boundary never exceeds what is committed nor the last_included index of the snapshot it holds; after the closure a leader exists, the probe write is acknowledged and node 3 has applied everything committed (by log or by snapshot).")
+
 NOT_BUILT = "check not built yet (work in progress, DESIGN.md section 10 build order); no verdict is claimed for this property"
 
 manifest = {
